@@ -12,7 +12,7 @@
     [inc_end m g n] / [hh_end g n] = n lies on an included / on an H-H bond, [charge_changed a] = the two charges in typesGH differ.
     Theorems 13-17: the RadiusExpand helpers. *)
 From Coq Require Import List NArith ZArith Bool.
-From SK Require Import lib.LGraph lib.C01_GraphLemmas model.C01_Model model.C02_Model proof.C02_Proof proof.C02_Opts proof.C02_OptsEquiv proof.C02_Ctx proof.C02_Lre proof.C02_LreTrace proof.C02_Sides proof.C02_Sides2 proof.C02_CtxEquiv.
+From SK Require Import lib.LGraph lib.C01_GraphLemmas model.C01_Model model.C02_Model proof.C02_Proof proof.C02_Opts proof.C02_OptsEquiv proof.C02_Ctx proof.C02_Lre proof.C02_LreTrace proof.C02_Sides proof.C02_Sides2 proof.C02_CtxEquiv proof.C02_CtxCentre proof.C02_CtxNest.
 Import ListNotations.
 Local Open Scope Z_scope.
 
@@ -321,3 +321,15 @@ Print Assumptions C02_centre_vs_sides_all.
 Theorem C02_construct_wf : forall ia bal (G H : mgraph), wf G -> wf H -> wf (its_construct_ab ia bal G H).
 Proof. exact wf_construct_ab. Qed.
 Print Assumptions C02_construct_wf.
+
+(** 25. a context carries its centre: for k >= 1 the centre of the radius-k context is the centre of the ITS *)
+Theorem C02_rc_of_context : forall g : its, wf g -> forall k, (1 <= k)%nat ->
+  geq (get_rc (extract_k g k)) (get_rc g).
+Proof. exact rc_of_context. Qed.
+Print Assumptions C02_rc_of_context.
+
+(** 26. contexts nest: for 1 <= k <= k' the radius-k context of the radius-k' context is the radius-k context of the ITS *)
+Theorem C02_ctx_of_ctx : forall g : its, wf g -> forall k k', (1 <= k)%nat -> (k <= k')%nat ->
+  geq (extract_k (extract_k g k') k) (extract_k g k).
+Proof. exact ctx_of_ctx. Qed.
+Print Assumptions C02_ctx_of_ctx.
